@@ -69,3 +69,10 @@ func c13mergedInit(c *generator.Context, w io.Writer, text string) error {
 	sw.Do(text, nil)
 	return sw.Error()
 }
+
+// c09RunReal: one run of the library's own target type (SimpleTarget) with the given header slice
+// (which may have spare capacity), package documentation and generators
+func c09RunReal(ctx *generator.Context, name, path, base string, header, doc []byte, gens []generator.Generator) error {
+	return ctx.ExecuteTarget(&generator.SimpleTarget{PkgName: name, PkgPath: path, PkgDir: filepath.Join(base, name), HeaderComment: header, PkgDocComment: doc,
+		GeneratorsFunc: func(*generator.Context) []generator.Generator { return gens }})
+}
